@@ -300,6 +300,11 @@ func checkC11(r *Run) {
 		}
 	}
 
+	// ------------------------------------------------------------------ R7b / R8
+	loadVersionRules(r, "C11-R7b")
+	r.Rule("C11-R8", "no write-then-panic in the stake handlers: StakeValidator (whose pool transfer panics on insufficient funds, after RegisterValidator already wrote) is reached only after ValidateValidatorStaking succeeded on the same validator and amount, including HasCoins(validator.Address, coins(amount))", 6)
+	stakeGuards(r, "C11-R8")
+
 	// ------------------------------------------------------------------ R7
 	r.Rule("C11-R7", "custom queries run on a freshly loaded historical copy: handleQueryCustom loads the requested version into a CopyStore of the root multistore, returns on a load error, and only then calls the querier with a context over that copy", 3)
 	if f := r.fn("baseapp.handleQueryCustom"); f != nil {
